@@ -92,7 +92,8 @@ class TplModel:
 def run_history(ctx, rng, root, cooks):
     from chameleon import PageTemplateFile, PageTemplateLoader
     ndirs = rng.randint(1, 3)
-    dirs = [os.path.join(root, 'd%d' % i) for i in range(ndirs)]
+    style = rng.choice(['d%d', 'd%d', 'd%d', '2024-05-01T10:30:0%d', 'with blank %d', 'chameleon:tests%d'])
+    dirs = [os.path.join(root, style % i) for i in range(ndirs)]
     for d in dirs:
         os.makedirs(d, exist_ok=True)
     auto = rng.random() < .7
@@ -124,7 +125,12 @@ def run_history(ctx, rng, root, cooks):
         write(lp, True, 'fwd')
     if via_loader:
         loader = PageTemplateLoader(list(dirs), auto_reload=auto)
-        t = loader.load('main.pt')
+        try:
+            t = loader.load('main.pt')
+        except Exception as e:
+            ctx.violation('history-load-fails', 'loading main.pt along the search path %r: %s %s' % (dirs, type(e).__name__, str(e)[:100]),
+                          {'kind': 'history', 'hist': 'load of main.pt along %r' % (dirs,)})
+            return
     else:
         t = PageTemplateFile(main, auto_reload=auto, search_path=list(dirs))
     tm = TplModel(main, auto)
@@ -202,6 +208,7 @@ def run_history(ctx, rng, root, cooks):
                               'compile, yet the use gave %r; history %r' % (auto, via_loader, step, op, got, hist), {'kind': 'history', 'hist': repr(hist)})
                 break
             continue
+        want = 'NO-EXCEPTION'
         try:
             if op == 'render':
                 inc_text = ''
@@ -254,7 +261,11 @@ def run_history(ctx, rng, root, cooks):
 
 def run_loader_layout(ctx, rng, root):
     from chameleon import PageTemplateLoader
-    dirs = [os.path.join(root, 'd%d' % i) for i in range(rng.randint(1, 3))]
+    # directory names as deployments have them: release time stamps (with colons), blanks, dots, a leading 'chameleon:'
+    # (an absolute directory is never a package spec)
+    style = rng.choice(['d%d', 'd%d', '2024-05-01T10:30:0%d', 'with blank %d', 'chameleon:tests%d', 'v1.%d', 'a#b%%%d'])
+    dirs = [os.path.join(root, style % i) for i in range(rng.randint(1, 3))]
+    ctx.cover('search-directory-naming', style)
     files = {}
     names = ['a.pt', 'b.pt', 'c', 'c.pt', 'x.y.pt', 'sub/a.pt', 'a.txt', 'b', 'v1.0/page', 'v1.0/page.pt', 'v1.0/page.txt',
              '.frag', '.frag.pt', 'sub/c', 'sub/c.pt']
@@ -302,6 +313,9 @@ def run_loader_layout(ctx, rng, root):
                 got = 'OPENFAIL' if want == 'OPENFAIL' else got
         except ValueError:
             got = None
+            t = None
+        except Exception as e:
+            got = 'RAISED %s %s' % (type(e).__name__, str(e)[:80])
             t = None
         if want in (None, 'OPENFAIL'):
             want_out = None
